@@ -122,6 +122,9 @@ func SearchFrom(prop, tier string, seed uint64, worker, workers int, budget time
 		s.Runs++
 		if res.Discard {
 			s.Discards++
+			for k, v := range res.Reach {
+				s.Reach[k] += v
+			}
 			continue
 		}
 		if res.Inconclusive != "" {
